@@ -13,8 +13,9 @@
   reconn   BaseTransport.reconnect: close first (its ConnectionError ignored), then connect
            attempts every 0.1 s under asyncio.timeout(timeout), a single attempt when timeout is
            None; DoIPTransport.reconnect defaults to 10 s
-Not claimed (cross-task liveness): that a read already blocked on the queue is woken when the
-reader task dies; the end-to-end 'after a peer restart the client obtains the correct reply'.
+  wake     exit contract of the reader task (`_read_worker` ending on EOF / reset / garbage):
+           the connection is marked closed and operations blocked on its queues are woken
+Not claimed: the end-to-end 'after a peer restart the client obtains the correct reply'.
 """
 from __future__ import annotations
 
@@ -258,9 +259,68 @@ def doip_reconnect_harness(I: Interp) -> None:
         I.prove("N-doip-reconnect-defaults-to-10s", models.to_real(seen["t"]) == 10)
 
 
+def wake_harness(which: str):
+    """Exit contract of the reader task: when `_read_worker` ends because the peer closed, reset
+    or sent garbage, (a) the connection is marked closed, so that later reads fail at once, and
+    (b) operations already blocked on a queue of the connection are woken (a sentinel is queued
+    or the waiters are cancelled).  Without (b) a read issued with timeout=None before the loss
+    never ends."""
+    def harness(I: Interp) -> None:
+        te.install_io(I.ex)
+        te.install_locks()
+        if which == "doip":
+            mod, conn = D(), doip_conn(I)
+            cls, closed_attr = mod.DoIPConnection, "_is_closed"
+        else:
+            mod, conn = H(), hsfz_conn(I)
+            cls, closed_attr = mod.HSFZConnection, "_closed"
+        wakes: list[str] = []
+        I.ghost["closes"] = 0
+        kind = I.choose([z3.BoolVal(True)] * 3)
+        exc = [asyncio.IncompleteReadError, ConnectionResetError, ValueError][kind]
+
+        def read_frame(I2: Interp, self_: V) -> V:
+            def go() -> V:
+                fields: dict[str, V] = {"args": VTuple([])}
+                if exc is asyncio.IncompleteReadError:
+                    fields.update({"partial": VBytes(b""), "expected": VInt(8)})
+                raise PyExc(VObj(exc, fields))
+            return coro(go)
+        I.ex.contracts[cls._read_frame] = read_frame
+        for q in ("queue", "dqueue"):
+            for m in ("put", "put_nowait", "shutdown"):
+                def woke(I2: Interp, r: V, a: list[V], k: dict[str, V], q: str = q,
+                         m: str = m) -> V:
+                    wakes.append(f"{q}.{m}")
+                    return coro(lambda: NONE) if m == "put" else NONE
+                I.ex.stubs[(q, m)] = woke
+        real_close = cls.close
+
+        def close(I2: Interp, self_: V) -> V:
+            def go() -> V:
+                I2.ghost["closes"] += 1
+                self_.fields[closed_attr] = VBool(True)  # type: ignore[union-attr]
+                return NONE
+            return coro(go)
+        I.ex.contracts[real_close] = close
+        try:
+            I.await_v(I.call_v(I.getattr_v(conn, "_read_worker"), [], {}))
+        except PyExc as e:
+            I.fail("W-reader-task-ends-without-raising", e.exc.cls.__name__)
+            return
+        tag = ["EOF", "reset", "garbage"][kind]
+        closed = conn.fields.get(closed_attr)
+        I.prove(f"W-reader-exit-marks-the-connection-closed{{{tag}}}",
+                closed.t if isinstance(closed, VBool) else z3.BoolVal(False))
+        I.prove(f"W-reader-exit-wakes-reads-blocked-on-the-queue{{{tag}}}",
+                z3.BoolVal(bool(wakes)), "no sentinel is queued and no waiter is cancelled")
+    return harness
+
+
 def build_units(tier: str) -> list[Unit]:
     units = [Unit("closed/doip", closed_harness("doip")),
              Unit("closed/hsfz", closed_harness("hsfz")),
+             Unit("wake/doip", wake_harness("doip")), Unit("wake/hsfz", wake_harness("hsfz")),
              Unit("reconnect/with-timeout", reconnect_harness(True)),
              Unit("reconnect/without-timeout", reconnect_harness(False)),
              Unit("reconnect/doip-default", doip_reconnect_harness)]
@@ -278,6 +338,36 @@ def native_replay(unit: str, obligation: str, model: dict) -> tuple[bool, str]:
     logging.disable(logging.CRITICAL)
     h = H()
     from .c06 import FakeWriter
+
+    async def wake() -> tuple[bool, str]:
+        r = asyncio.StreamReader()
+        if unit == "wake/doip":
+            conn: Any = D().DoIPConnection(r, FakeWriter(), 0x0E00, 0x1D, 3)  # type: ignore
+            read = conn.read_frame
+        else:
+            conn = h.HSFZConnection(r, FakeWriter(), 0xF4, 0x10, 0.05)  # type: ignore
+            read = conn.read_frame
+        if "marks-the-connection-closed" in obligation:
+            # loss first, then a read without a caller timeout
+            r.feed_eof()
+            await asyncio.sleep(0.05)
+            t = asyncio.ensure_future(read())
+            order = "issued after the peer closed"
+        else:
+            t = asyncio.ensure_future(read())
+            await asyncio.sleep(0.05)
+            r.feed_eof()
+            order = "pending when the peer closed"
+        done, _ = await asyncio.wait([t], timeout=0.6)
+        if done:
+            e = t.exception()
+            return False, f"the read ended with {type(e).__name__ if e else 'a frame'}"
+        t.cancel()
+        return True, (f"{type(conn).__name__}: a read without caller timeout, {order}, is still "
+                      f"blocked 0.6 s after the reader task ended (observation window; nothing "
+                      f"can wake it any more)")
+    if unit.startswith("wake/"):
+        return asyncio.run(wake())
 
     async def go() -> tuple[bool, str]:
         r = asyncio.StreamReader()
@@ -317,9 +407,8 @@ def main(tier: str, seed: int, only: str | None = None, jobs: int = 16) -> int:
     results = run_units(units, jobs)
     chk.trusted_base = TRUSTED
     chk.assumptions = [
-        "proved-partial: per-function ingredients only. Cross-task liveness ('a read already "
-        "blocked is woken when the reader task dies', observed to hang with timeout=None on HSFZ "
-        "and DoIP) and the end-to-end recovery after a peer restart are not decidable by "
-        "per-function contracts and are not claimed",
+        "proved-partial: per-function ingredients only; 'never blocks forever' is decided as an "
+        "exit contract of the reader task (wake units); the end-to-end recovery after a peer "
+        "restart is not decidable by per-function contracts and is not claimed",
     ]
     return chk.finish(results, native_replay, native_search)
